@@ -4,7 +4,7 @@ func init() {
 	props["C16"] = &propDef{
 		info: PropInfo{
 			Bounds: []string{
-				"operations: zoom change (out and in), merge, N-layer neighbourhood, quadkey->ID conversion (equal and mixed key zooms), tile conversion, extended overlap; two symbolic input IDs (tiles) per call at zooms (3,3), (25,26), of equal precision and (zoom change, merge, overlap) of mixed precision",
+				"operations: zoom change (out and in), merge, N-layer neighbourhood, quadkey->ID conversion (equal and mixed key zooms), tile conversion, extended overlap; two symbolic input IDs (tiles) per call at zooms (3,3), (25,26), of equal precision and (zoom change, merge, overlap) of mixed precision (second ID one level finer on both axes; for zoom change and merge also on one axis only)",
 				"map iteration: every range over a map of <= 4 keys takes every order (forked by the executor; contents stay symbolic and are decided by the solver); more than 4 keys in one map = unsupported = inconclusive",
 				"permutation = swap of the two inputs, duplication = first element repeated at the end; inputs handed over in slices with spare capacity under the frame check",
 			},
@@ -41,6 +41,20 @@ func init() {
 					if op == 9 {
 						c["orders"] = 0 // 8..16 result keys: beyond the iteration-order bound; order-independence of Unique is shown by the other ops
 					}
+					in := mk("detector", "VerifC16Op", c)
+					in.Unwind = 100
+					in.MaxSeconds = 2400
+					in.MaxPaths = 60000
+					is = append(is, in)
+				}
+				// one-axis mixed precision (same x/y/vZoom with different hZoom, and the converse): zoom change and merge
+				// (zoom (3,3) only: the (25,26) form of these cases has not been run clean, so it is not registered)
+				for _, om := range [][2]int{{0, 2}, {1, 2}, {0, 3}, {1, 3}, {2, 2}, {2, 3}} {
+					if z[0] != 3 {
+						break
+					}
+					c := cs("op", om[0], "h", z[0], "v", z[1], "mix", om[1])
+					c["orders"] = 1
 					in := mk("detector", "VerifC16Op", c)
 					in.Unwind = 100
 					in.MaxSeconds = 2400
